@@ -61,6 +61,12 @@ func runC06(c *Ctx) {
 	}
 	// charstrings and subroutines arrive as `n RD ~n~binary~bytes~`: RD is readstring
 	c.scannerOperators(c.interp(), c.registry(), "T1-BINARY", "readstring")
+	// the private part of every conforming font file is an eexec section, written either as
+	// hexadecimal digits or as binary bytes (Type 1 book §7.2): the reader recovers the font only
+	// if the section's form is told apart exactly as the book says — binary iff one of the first
+	// four cipher bytes is not a hexadecimal digit —, white space before it is skipped and the
+	// four lead bytes are dropped.  Same decision table as C05 (EEXEC-WS/-HEXDETECT/-LEADBYTES).
+	c.beginEexecTable()
 	// ---- opcode constants
 	var names []string
 	for n := range t1Spec {
@@ -85,6 +91,7 @@ func runC06(c *Ctx) {
 	c.subrRules(nil, nil)
 	c.charstringDecryption()
 	c.readDefaults()
+	c.t1StemsW2()
 	c.lenIVFlowB()
 	c.subrsTableB()
 	c.lenIVGuards()
@@ -320,19 +327,9 @@ func (c *Ctx) readDefaults() {
 	})
 	c.check(okFM, "T1-DEFAULTS", fname, "default FontMatrix = [0.001 0 0 0.001 0 0]", fd.Pos(), "", "the default FontMatrix is not [0.001 0 0 0.001 0 0]")
 	// codes of absent glyphs → .notdef
-	okND := false
-	ast.Inspect(fd.Body, func(n ast.Node) bool {
-		rs, ok := n.(*ast.RangeStmt)
-		if !ok || types.ExprString(rs.X) != "encoding" {
-			return true
-		}
-		s := nodeString(c, rs.Body)
-		if strings.Contains(s, "glyphs[name]") && strings.Contains(s, `".notdef"`) {
-			okND = true
-		}
-		return true
-	})
-	c.check(okND, "T1-DEFAULTS", fname, "codes of absent glyphs are mapped to .notdef", fd.Pos(), "for i, name := range encoding { if glyph missing → .notdef }", "encoding entries naming glyphs that are not in the font are no longer mapped to .notdef")
+	// (decided on the SSA form, ext_w2.go: the loop may live in Read or in a helper)
+	okND, whyND := c.notdefMappingW2(read)
+	c.check(okND, "T1-DEFAULTS", fname, "codes of absent glyphs are mapped to .notdef", fd.Pos(), "Font.Encoding[i] = .notdef iff Font.Encoding[i] is not a key of Font.Glyphs", "encoding entries naming glyphs that are not in the font are no longer mapped to .notdef: "+whyND)
 }
 
 func (c *Ctx) seacRules() {
